@@ -52,7 +52,7 @@ for _pid, _why in [
 ]:
     na(_pid, _why)
 
-prop("C02", ["sql_prec", "static_eval"],
+prop("C02", ["sql_prec", "static_eval", "operator_tpl"],
      not_covered="evaluation inside the database; dialect templates beyond the strengths they declare; sites that build SQL operands "
                  "without translate_operand (process_concat, process_array_in, try_into_between) are not yet under contract")
 claim("C02",
@@ -60,7 +60,8 @@ claim("C02",
       "translate_operand wraps exactly when the rule says so (TO1); translate_binary_operator passes each operand with the operator's own "
       "strength/associativity on the correct side (TB1); process_null emits IS [NOT] NULL on the operand that is not the null literal, "
       "whichever side null is on (NP5); wrap_in_parenthesis really wraps (WP2); compile-time folding (static_eval_rq_operator, "
-      "static_eval_case, maybe_static_eval - verbatim) never changes the value an expression denotes under three-valued logic: not / and / or / eq / ne / neg / "
+      "static_eval_case, maybe_static_eval - verbatim; operator_tpl TP1: a `{x:N}` hole of a std.sql.prql template is translated as an operand of strength N, "
+      "a `{x}` hole with the definition's binding_strength, which is what the NP4 rows assume) never changes the value an expression denotes under three-valued logic: not / and / or / eq / ne / neg / "
       "coalesce of literals (SE1), `case` reduced to its first TRUE branch or null, for any number of branches (SE2, loop invariant), ids and spans kept (SE3). "
       "Table obligations (one per row): for every constructible "
       "(parent operator, child class, side) the real strength/associativity tables never leave an operand bare where SQLite's documented "
@@ -68,7 +69,7 @@ claim("C02",
       "Oracle = SQLite's documented precedence table (the executable grammar here). translate_expr is external (uninterpreted result, "
       "Context state not modelled); sqlparser enums are mechanically generated skeletons; sqlparser's Display is trusted to print trees as written.")
 
-prop("C01", ["split_order", "take_range"],
+prop("C01", ["split_order", "take_range", "operator_tpl"],
      not_covered="anchor_split cid redirection, preprocess (distinct/union recognition), lowering, flattening: hash-map threaded folds over three "
                  "IRs; a violation there is invisible to these contracts")
 claim("C01",
@@ -76,7 +77,10 @@ claim("C01",
       "with a later transform that SQL's logical clause order would evaluate earlier (one clause per (transform, later transform) pair, SO1.*), "
       "its frame (SO2); a filter never follows a compute in one SELECT unless it is a HAVING (SO1c); can_materialize inlines a column only if "
       "its complexity is allowed by every requirement (CM1) with Complexity the total order Plain<NonGroup<Windowed<Aggregation (CX1); "
-      "reorder() hoists a compute over a take only if it is row-local (RO1); composition of takes and LIMIT/OFFSET arithmetic (take_range). "
+      "reorder() hoists a compute over a take only if it is row-local (RO1); composition of takes and LIMIT/OFFSET arithmetic (take_range); the "
+      "empty-input values of the statement: translate_operator wraps an aggregate in COALESCE(.., default) exactly when its definition has an empty-input default and it "
+      "is not used as a window function (TP2, TP3), and in every dialect module of std.sql.prql the effective definition of sum / any / all has the default 0 / FALSE / "
+      "TRUE and count is COUNT(*) without a default (rows CO.<dialect>.<fn>, read from the file on every run). "
       "NOT proved: the end-to-end sentence of C01 (semantic preservation of the whole compiler).",
       "Oracle: SQL's logical clause order. HashSet<String>, strum AsRefStr, contains_any, the filter/fold in can_materialize and "
       "infer_complexity_expr are trusted by contract; split_off_back's loop and anchor_split are not under contract.")
@@ -201,7 +205,7 @@ def _safety(name):
 
 
 _ALL_UNITS = ["take_range", "sort_take", "split_order", "window_frame", "dialect_select", "ident_quote", "ids_names", "toposort", "rq_tables",
-              "select_shape", "span_units", "sql_prec", "prql_prec", "literals", "set_ops", "desugar", "resolve_guards", "lex_strings", "limit_clause", "static_eval"]
+              "select_shape", "span_units", "sql_prec", "prql_prec", "literals", "set_ops", "desugar", "resolve_guards", "lex_strings", "limit_clause", "static_eval", "operator_tpl"]
 prop("C12", _ALL_UNITS, select={u: _safety for u in _ALL_UNITS},
      not_covered="every function that is not under contract (~150 unwrap/expect sites, todo!() in type_intersection, panic!(cannot find cid) in lookup_cid), "
                  "recursion depth, chumsky, time bounds")
